@@ -6,7 +6,7 @@ strings, `.fill/.zero/.zerountil` (vf.model.layout.data_bytes + rules below), co
 from vf import core, isa as isamod
 from vf.model import layout
 
-LABELS = ['tbl_end', 'msg2', 'Zed', 'k_val', 'fwd_lab']
+LABELS = ['tbl_end', 'msg2', 'Zed', 'k_val', 'fwd_lab', 'B0', 'each', 'B101', 'bach']     # (the last four read almost like numbers)
 ESCAPES = {'\\n': 10, '\\t': 9, '\\r': 13, '\\\\': 92, '\\x41': 0x41, '\\x7f': 0x7f, '\\x00': 0, '\\xfe': 0xfe}
 PLAIN = [c for c in map(chr, range(32, 127)) if c not in '"\'\\']
 WIDTH = {'.byte': 1, '.2byte': 2, '.4byte': 4, '.8byte': 8}
@@ -313,6 +313,33 @@ class C11(core.Check):
                                            'tags': ['ends-on-the-last-address-of-its-zone', 'count:negative', 'ends-on-the-last-address-of:' + (zone_[0] if zone_ else f'{ab}-bit-space')],
                                            'sigk': text_.split()[0]}]},
                        'tags': []}
+        # counts and targets worked out from address labels defined further up
+        for k_, (src_l, img) in enumerate([
+                (['.org 0', 'tbl: .byte 1, 2, 3', 'tbl_end:', '.fill 8-(tbl_end-tbl), $1EE', 'buf: .zerountil buf+3', '.zero tbl_end - tbl', '.byte $7F'], '010203eeeeeeeeee000000000000007f'),
+                (['.org 0', 'a_l:', '.byte 9', 'b_l:', '.fill b_l - a_l + 1, 5', '.zerountil b_l + 4', '.byte $7F'], '0905050000007f'),
+                (['.org 0', '.byte 1', 'here_l:', '.zero here_l', '.fill here_l * 2, here_l + 6', '.byte $7F'], '01000707' + '7f')]):
+            obj = isamod.base_isa(address_size=16, endian='big')
+            fn, text = isamod.render_isa(obj, 'json')
+            bts = bytes.fromhex(img)
+            yield {'runs': [{'files': {fn: text, 'p.asm': '\n'.join(src_l) + '\n'}, 'argv': ['compile', '-c', fn, 'p.asm', '-o', 'out.bin'],
+                             'probes': ['steps', 'sizes'], 'step_limit': 2_000_000}],
+                   'meta': {'start': 0, 'fill': 0, 'endian': 'big', 'kind': 'ACCEPT',
+                            'lines': [{'k': 'bytes', 'text': ' / '.join(src_l), 'addr': 0, 'size': len(bts), 'bytes': bts.hex(),
+                                       'tags': ['count-or-target-from-a-label-defined-further-up'], 'sigk': 'fill'}]},
+                   'tags': []}
+        # a label in front of a string whose text holds that label's name and a colon: the text is text
+        for k_, (text_, bts) in enumerate([('x: .cstr "max: 5"', b'max: 5\0'), ('m: .byte "hm: ok"', b'hm: ok'), ('lab_q: .asciiz "lab_q: again lab_q:"', b'lab_q: again lab_q:\0'),
+                                           ('x: .cstr \'x: x:x: \'', b'x: x:x: \0'), ('m: "hm: m:"', b'hm: m:\0'), ('a: b: .cstr "a: b: a:b:"', b'a: b: a:b:\0')]):
+            obj = isamod.base_isa(address_size=16, endian='big')
+            obj['general']['allow_embedded_strings'] = True
+            fn, text = isamod.render_isa(obj, 'json')
+            yield {'runs': [{'files': {fn: text, 'p.asm': text_ + '\n.byte $EE\n'}, 'argv': ['compile', '-c', fn, 'p.asm', '-o', 'out.bin'],
+                             'probes': ['steps', 'sizes'], 'step_limit': 2_000_000}],
+                   'meta': {'start': 0, 'fill': 0, 'endian': 'big', 'kind': 'ACCEPT',
+                            'lines': [{'k': 'bytes', 'text': text_, 'addr': 0, 'size': len(bts), 'bytes': bts.hex(),
+                                       'tags': ['string:holds-the-name-of-the-label-in-front-of-it'], 'sigk': 'string'},
+                                      {'k': 'data', 'text': '.byte $EE', 'addr': len(bts), 'size': 1, 'bytes': 'ee', 'tags': [], 'sigk': '.byte'}]},
+                   'tags': []}
         for body in (['.org 8', '.byte 1', '.org 40', '.fill 0-5, 0', 'c11_after:', '.byte c11_after'], ['.byte 1, 2, 3', '.fill -2, 0', '.byte 9'],
                      ['.org 20', '.zero 0-1', '.byte 9'], ['C11_K = 3 - 7', '.org 30', '.zero C11_K', '.byte 1'], ['.org 30', '.fill 2-3, $55']):
             obj = isamod.base_isa(address_size=16, endian='big')
